@@ -408,7 +408,7 @@ def proof_phase(res, pid, expected_theorems):
 
 # ----------------------------------------------------------------------------- bulk (streamed) model/impl comparison
 
-def bulk_compare(harness_args, tag, shards=12, release=False, max_report=20):
+def bulk_compare(harness_args, tag, shards=12, release=False, max_report=20, eq=None):
     """Runs the harness writing 'cmd\\targs\\t=>\\timpl' lines to a file, evaluates the model on the
     command parts with `shards` parallel modelrun processes and compares line by line.
     Returns dict(n=..., mismatches=[(cmd, impl, model)], kinds={cmd: count}, samples=[...])."""
@@ -448,9 +448,10 @@ wait
                 if first and len(samples) < 8:
                     samples.append((c.rstrip("\n"), i.rstrip("\n")))
                     first = False
-                if i != m and len(mism) < max_report:
+                same = (i == m) if eq is None else eq(i.rstrip("\n"), m.rstrip("\n"))
+                if not same and len(mism) < max_report:
                     mism.append((c.rstrip("\n"), i.rstrip("\n"), m.rstrip("\n")))
-                elif i != m:
+                elif not same:
                     mism.append(None)
     n_mis = len(mism)
     mism = [x for x in mism if x is not None]
